@@ -230,19 +230,72 @@ func (r *Runner) Run(cmd string, step any, args []any, key string) (outs []any, 
 		r.slots[slot] = v
 		sb.WriteString("$" + name)
 	}
+	for i := range r.slots {
+		r.slots[i] = nil
+	}
 	if step != nil {
 		sb.WriteString(" &step=")
 		word(9, "st", step)
 	}
+	// Arguments that are equal big values sometimes share ONE Go pointer (as
+	// `$x $x` does in real code), and every typed argument is snapshotted so
+	// that an in-place update of an argument by the callee is observed: elvish
+	// numbers are immutable values.
+	shared := make([]any, len(args))
 	for i, a := range args {
+		shared[i] = a
+		for j := 0; j < i; j++ {
+			if (bits>>(uint(i+j)%13))&1 == 1 && sameBig(args[j], a) {
+				shared[i] = shared[j]
+				break
+			}
+		}
+	}
+	for i, a := range shared {
 		sb.WriteString(" ")
 		word(i, "a"+strconv.Itoa(i), a)
 	}
+	var snap [10]string
+	for i, v := range r.slots {
+		if v != nil {
+			snap[i] = showNum(v)
+		}
+	}
 	err := r.eval(sb.String(), func(v any) { outs = append(outs, v) })
+	for i, v := range r.slots {
+		if v != nil && showNum(v) != snap[i] {
+			return nil, "ARG-MUTATED:slot" + strconv.Itoa(i) + ":" + snap[i] + "->" + showNum(v)
+		}
+	}
 	if err != nil {
 		return nil, Classify(err)
 	}
 	return outs, ""
+}
+
+// sameBig reports whether a and b are big values (pointers) with equal contents.
+func sameBig(a, b any) bool {
+	switch x := a.(type) {
+	case *big.Int:
+		y, ok := b.(*big.Int)
+		return ok && x.Cmp(y) == 0
+	case *big.Rat:
+		y, ok := b.(*big.Rat)
+		return ok && x.Cmp(y) == 0
+	}
+	return false
+}
+
+func showNum(v any) string {
+	switch x := v.(type) {
+	case *big.Int:
+		return "I" + x.String()
+	case *big.Rat:
+		return "R" + x.String()
+	case float64:
+		return "F" + strconv.FormatUint(math.Float64bits(x), 16)
+	}
+	return fmt.Sprint(v)
 }
 
 // Classify maps an evaluation error to a small enum.
